@@ -169,7 +169,10 @@ ENTRY h_span_ops() {
   int base = g_nlog;                       // calls made by the constructor
   int n_attr = 0, n_event = 0, n_status = 0, n_name = 0; bool ended = false; int64_t last_attr = 0; uint8_t last_status = 0; char last_name = 0;
   int order_ok = 1; int expect_log = base;
-  for (int step = 0; step < 4; step++) {
+#ifndef NOPS
+#define NOPS 4
+#endif
+  for (int step = 0; step < NOPS; step++) {
     uint8_t op = nondet_u8() % 5;
     if (op == 0) { int64_t v = (int64_t)nondet_u64(); span->SetAttribute("k", v); if (!ended) { if (expect_log < 24 && n_attr < 4) order_ok &= 1; n_attr++; last_attr = v; expect_log++; } }
     else if (op == 1) { span->AddEvent("e"); if (!ended) { n_event++; expect_log++; } }
@@ -183,8 +186,13 @@ ENTRY h_span_ops() {
   VASSERT(g_nattr == n_attr && (n_attr == 0 || n_attr > 4 || g_attr_val[n_attr - 1] == last_attr), "attribute writes arrive in order (last write is last)");
   VASSERT(n_status == 0 || g_status == last_status, "status is the last one set before End");
   VASSERT(n_name == 0 || g_name0 == last_name, "name is the last UpdateName before End");
+#ifdef NO_DTOR_CHECK
+  span->End();                                           // (shared_ptr disposers are not run in this build: End explicitly)
+  VASSERT(g_onend == 1 && g_rec_live == 0, "a final End exports an open span once; the recordable is released exactly once");
+#else
   span = nostd::shared_ptr<trace::Span>(nullptr);       // destroying the span ends it if still open
   VASSERT(g_onend == 1 && g_rec_live == 0, "destruction ends an open span once; the recordable is released exactly once");
+#endif
 }
 
 // ---- C04: a span that is not recorded never reaches a recordable or the processor, whatever is called on it
